@@ -175,7 +175,7 @@ macro_rules! prefix_split {
     ($name:ident, $k:expr) => {
         // @tier thorough
         // @timeout 2400
-        // @mem 40
+        // @mem 24
         // @unwind 12
         // @bound an 8-byte stream prefix with every value of the 4-byte size field, delivered as the first K bytes and then the rest (K concrete per harness, K = 0..8, i.e. every boundary inside the size field and the frame header); decoder built by the repo's length_delimited_decoder(512)
         // @desc the frame handed to the AMQP frame decoder is independent of how the bytes were split across reads; sizes above max-frame-size or below 4 are rejected, not mis-framed
